@@ -12,7 +12,8 @@ ModelOf(m) == [version |-> m.version, items |-> [i \in 1..Len(m.items) |-> Item2
 ASSUME ndJsonSerialize("images.ndjson", [i \in 1..Len(Models) |-> [model |-> Models[i], image |-> ToHex(Render(ModelOf(Models[i])))]])
 \* ---- look-up cases: every keytab with <= 2 entries (3 in thorough via MaxE) over the attribute space, as abstract entries
 CONSTANT MaxE
-Comps == { <<"svc", "host">>, <<"svc">>, <<"svc", "host", "x">>, <<"svc", "hosu">> }    \* equal, prefix, extension, same length other value
+Comps == { <<"svc", "host">>, <<"svc">>, <<"svc", "host", "x">>, <<"svc", "hosu">>,    \* equal, prefix, extension, same length other value
+           <<"svc/host">> }                                                               \* prints like the first, splits differently
 RealmsL == {"R.TEST", "S.TEST"}
 KvnosE == {1, 2, 257}                       \* 257 = 1 + 256: equal in the 8-bit field only
 EtypesL == {17, 18}
